@@ -357,6 +357,7 @@ class Interp:
         self.extra_guards = []
         self.early_conds = []      # (condition with boolean tree, value, index guards) of every early exit
         self.frames = []           # call frames: early returns of the frame are folded into its result (see note_early)
+        self.allow_ref_writes_after_exit = False   # a rule that reads the write log (with its conditions) itself may switch this on
         self.fold_early = True     # rules that account for early returns themselves (strictly) switch this off
         self.ref_writes = 0        # writes that went through a &mut reference (caller-visible effects)
 
@@ -456,12 +457,16 @@ class Interp:
         fr = self.frames[-1]
         is_failure = isinstance(value, Opt) and value.some is False
         in_loop = len(self.loops) > fr["loops"]
-        nested = len(self.cond_stack) > fr["conds"]
+        # the exit happens under every opaque condition entered since the frame began (enclosing arms, earlier exits' negations)
+        full = c
+        for oc in reversed(self.cond_stack[fr["conds"]:]):
+            full = cond_and(oc, full)
         if is_failure:
-            # an error exit (Err / None): the summaries describe the function on its Ok path, where no error exit was taken; when the
-            # exit is a plain top-level one its condition is folded into the presence of the result, otherwise it is only logged
-            if not in_loop and not nested:
-                fr["early"].append((c, value))
+            # an error exit (Err / None): the summaries describe the function on its Ok path, where no error exit was taken; outside
+            # loops its condition is folded into the presence of the result, inside a loop it is only logged
+            if not in_loop:
+                fr["early"].append((full, value))
+                self.cond_stack.append(c.negate())
             return
         # ControlUndecided: the statement-level opaque fallback must not swallow this (the jump would silently disappear)
         if in_loop:
@@ -469,17 +474,17 @@ class Interp:
             # first element satisfying p; recorded on the loop and turned into a quantifier when the loop has been summarised
             lc = self.loops[-1]
             if len(self.loops) == fr["loops"] + 1 and isinstance(value, Cond) and value.kind == "const":
-                full = c
+                full_l = c
                 for oc in reversed(self.cond_stack[getattr(lc, "cond_base", 0):]):
-                    full = cond_and(oc, full)
+                    full_l = cond_and(oc, full_l)
                 if not hasattr(lc, "search_exits"):
                     lc.search_exits = []
-                lc.search_exits.append((full, value))
+                lc.search_exits.append((full_l, value))
                 return
             raise ControlUndecided("value-returning early exit inside a summarised loop of %s (condition %s)" % (fr["path"], c.key()[:80]))
-        if nested:
-            raise ControlUndecided("value-returning early exit nested in another conditional of %s (condition %s)" % (fr["path"], c.key()[:80]))
-        fr["early"].append((c, value))
+        fr["early"].append((full, value))
+        # what follows in this frame happens only when the exit was not taken
+        self.cond_stack.append(c.negate())
         if fr["refw"] is None:
             fr["refw"] = self.ref_writes
 
@@ -498,11 +503,12 @@ class Interp:
         fr["early"].append((c, value))
 
     def fold_frame(self, fr, ret):
+        del self.cond_stack[fr["conds"]:]
         for st_ in reversed(fr.get("rel_guards", [])):
             st_.pop()
         if not fr["early"]:
             return ret
-        if fr["refw"] is not None and self.ref_writes != fr["refw"]:
+        if fr["refw"] is not None and self.ref_writes != fr["refw"] and not self.allow_ref_writes_after_exit:
             raise Undecided("%s writes through a &mut reference after a value-returning early exit: the effect is conditional" % fr["path"])
         for c, v in reversed(fr["early"]):
             if c.kind == "rel":
@@ -902,6 +908,7 @@ class Interp:
         snap = snapshot(env)
         t_ret = e_ret = None
         tv = ev = UNIT
+        n0 = len(self.cond_stack)
         self.cond_stack.append(c)
         try:
             tv = self.eval(e["then"], env)
@@ -911,7 +918,7 @@ class Interp:
             t_ret = ReturnSignal(BREAK)
             self.breaks.append((c.key(), snapshot(env), self.probe() if self.probe else None))
         finally:
-            self.cond_stack.pop()
+            del self.cond_stack[n0:]      # the arm's own condition and whatever early exits inside it left behind
         tstate = snapshot(env)
         restore(env, snap)
         if "else" in e:
@@ -924,7 +931,7 @@ class Interp:
                 e_ret = ReturnSignal(BREAK)
                 self.breaks.append((c.negate().key(), snapshot(env), self.probe() if self.probe else None))
             finally:
-                self.cond_stack.pop()
+                del self.cond_stack[n0:]
         estate = snapshot(env)
         if t_ret is not None and e_ret is not None:
             if t_ret.value is BREAK or e_ret.value is BREAK:
@@ -1102,18 +1109,19 @@ class Interp:
                 snap = snapshot(env)
                 aenv = Interp.Env(env)
                 self.bind(some_arm[0]["pat"], scrut, aenv)
+                n0 = len(self.cond_stack)
                 self.cond_stack.append(c)          # effects inside a summarised loop must know they are conditional
                 try:
                     tv = self.eval(some_arm[0]["body"], aenv)
                 finally:
-                    self.cond_stack.pop()
+                    del self.cond_stack[n0:]
                 tstate = snapshot(env)
                 restore(env, snap)
                 self.cond_stack.append(c.negate())
                 try:
                     ev = self.eval(none_arm[0]["body"], Interp.Env(env))
                 finally:
-                    self.cond_stack.pop()
+                    del self.cond_stack[n0:]
                 estate = snapshot(env)
                 merge_states(env, c, tstate, estate)
                 return merge_vals(c, tv, ev)
@@ -1695,7 +1703,7 @@ def merge_vals(c, a, b):
     if isinstance(a, Num) and isinstance(b, Num):
         if a.expr == b.expr:
             return a
-        return Num(Expr.atom(("ite", c.key(), a.expr, b.expr)))
+        return Num(num_ite(c, a.expr, b.expr))
     if isinstance(a, Tup) and isinstance(b, Tup) and len(a.items) == len(b.items):
         return Tup([merge_vals(c, x, y) for x, y in zip(a.items, b.items)])
     if isinstance(a, Struct) and isinstance(b, Struct) and a.name == b.name:
@@ -1726,6 +1734,59 @@ def merge_vals(c, a, b):
     if a is b:
         return a
     raise Undecided("merging %r and %r under a condition" % (a, b))
+
+
+def num_ite(c, x, y):
+    """ite(c, x, y) with the condition decomposed into its atoms (conjunctions / disjunctions / negations become nested selections) and
+    each branch simplified under what its position implies: the same function written with early exits or with nested if/else gets
+    the same nesting."""
+    return _ite_tree(c.tree, c, x, y)
+
+
+def _ite_tree(t, c, x, y):
+    if x == y:
+        return x
+    k = t[0]
+    if k == "const":
+        return x if t[1] else y
+    if k == "not":
+        return _ite_tree(t[1], None, y, x)
+    if k == "and":
+        return _ite_tree(t[1], None, _ite_tree(t[2], None, x, y), y)
+    if k == "or":
+        return _ite_tree(t[1], None, x, _ite_tree(t[2], None, x, y))
+    if k == "atom":
+        key = str(t[1])
+    elif c is not None:
+        key = c.key()
+    else:
+        from . import boolean
+        key = boolean.normal_text(t)
+    xs, ys = _assume(x, key, True), _assume(y, key, False)
+    if xs == ys:
+        return xs
+    return Expr.atom(("ite", key, xs, ys))
+
+
+def _assume(e, key, truth):
+    """e with every top-level selection on `key` resolved (a selection standing alone as a term: coefficient · ite(key, a, b))."""
+    out = None
+    changed = False
+    for t in e.terms:
+        if len(t.atoms) == 1 and t.atoms[0][1] == 1 and t.atoms[0][0][0] == "ite" and len(t.atoms[0][0]) == 4 and not t.binders and not t.guards:
+            a = t.atoms[0][0]
+            if a[1] == key:
+                piece = _assume(a[2] if truth else a[3], key, truth) * Expr.const(t.coeff)
+                changed = True
+            else:
+                piece = Expr.atom(("ite", a[1], _assume(a[2], key, truth), _assume(a[3], key, truth))) * Expr.const(t.coeff)
+                changed = changed or piece != Expr([t])
+        else:
+            piece = Expr([t])
+        out = piece if out is None else out + piece
+    if out is None or not changed:
+        return e
+    return out
 
 
 def _tree_subst(t, m):
